@@ -337,7 +337,7 @@ pub fn run_scenario(id: usize, permits: isize, prog: &[Vec<String>], sched: &[(S
         }
     }
     // end of the run: everybody must be done (closed systems); generous bound before declaring a thread stuck
-    let all_done = wait_until(&ctl, Duration::from_millis(2500), |s| s.status.iter().all(|x| *x == Status::Done));
+    let all_done = wait_until(&ctl, Duration::from_millis(6000), |s| s.status.iter().all(|x| *x == Status::Done));
     let stuck: Vec<usize> = {
         let s = ctl.m.lock().unwrap();
         s.status.iter().enumerate().filter(|(_, x)| **x != Status::Done).map(|(i, _)| i + 1).collect()
